@@ -1072,7 +1072,8 @@ func (c *compiler) compileFunc(e *Func) error {
 	}
 	if fn, ok := c.customFuncs[e.Name]; ok && fn.accept(len(e.Args)) {
 		if err := c.compileCallInternal(
-			[3]any{fn.callback, len(e.Args), e.Name},
+			// opcall tracks the paths of _index, _slice and getpath by name
+			[3]any{fn.callback, len(e.Args), "custom:" + e.Name},
 			e.Args,
 			true,
 			0, // evaluate the arguments as values, not as paths
